@@ -193,6 +193,25 @@ _SHAPES = [
         return Ok(());
     }"""),
     ("SHAPE_UPDATE_DICT_CONCAT", _R, "let combined = concat::concat(&[existing, &dict_values])"),
+    ("SHAPE_READ_META_PREFIX", _R, """Ok(0) if filled == 0 => return Ok(None),
+                // The stream ends part way through a length prefix: it is truncated
+                Ok(0) => {
+                    return Err(ArrowError::from(std::io::Error::from(
+                        std::io::ErrorKind::UnexpectedEof,
+                    )));
+                }
+                Ok(n) => filled += n,"""),
+    ("SHAPE_WRITE_UNION", _W, """let (union_offset, union_len) = (array_data.offset(), array_data.len());
+        let type_ids = array_data.buffers()[0].slice_with_length(union_offset, union_len);"""),
+    ("SHAPE_WRITE_UNION_DENSE", _W, "let offsets = array_data.buffers()[1].slice_with_length(union_offset * 4, union_len * 4);"),
+    ("SHAPE_WRITE_UNION_CHILDREN", _W, """let child = match mode {
+                UnionMode::Sparse => child.slice(union_offset, union_len),
+                UnionMode::Dense => child.clone(),
+            };"""),
+    ("SHAPE_REE_EMPTY", _W, """if run_array.len() == 0 {
+        let run_ends = PrimitiveArray::<R>::from_iter_values(std::iter::empty::<R::Native>());
+        return RunArray::try_new(&run_ends, &run_array.values().slice(0, 0));
+    }"""),
     ("SHAPE_READ_META_LEN", _R, """if meta_len == CONTINUATION_MARKER {
                 self.reader.read_exact(&mut meta_len)?;
             }
